@@ -147,6 +147,9 @@ def rule_faults():
     f("deref-empty-body", append({"zz": [{"$deref": {}}]}))
     f("deref-field-two-values", append({"zz": [{"$deref": {"main_reg": ["%rax", "%rbx"]}}]}))
     f("operand-list-item-null", append({"zz": [None]}))
+    f("item-null", append(None))
+    f("item-nested-list", append([["ret"]]))
+    f("operand-nested-list", append({"zz": [["%rax"]]}))
     f("times-negative-int", lambda doc: _first_item_times(doc, -1, False))
     f("times-negative-int-sibling", lambda doc: _first_item_times(doc, -2, True))
     f("times-negative-min", lambda doc: _first_item_times(doc, {"min": -1, "max": 2}, False))
@@ -176,6 +179,19 @@ TEXT_FAULTS = [
     ("yaml-garbled", lambda t: t.replace("pattern:", "pattern: {", 1)),
     ("yaml-tabs", lambda t: t.replace("\n- ", "\n\t- ", 1)),
     ("rule-not-utf8", lambda t: t.encode() + b"\n# \xff\xfe\xfa\n"),
+    # single characters that make the document ill-formed for a YAML 1.1 loader (each is injected only if the harness's own loader rejects it)
+    ("yaml-tab-after-colon", lambda t: t.replace("pattern:\n", "pattern:\t\n", 1) if "pattern:\n" in t else t.replace(": ", ":\t", 1)),
+    ("yaml-tab-separator-in-key-value", lambda t: __import__("re").sub(r"(?m)^(- \w+):$", lambda m: m.group(1) + ":\t[x]", t, count=1)),
+    ("yaml-question-mark-in-flow-sequence", lambda t: t.rstrip("\n") + "\n- {zz: [jmp?, call]}\n"),
+    ("yaml-question-mark-in-flow-mapping", lambda t: t.rstrip("\n") + "\n- nop: {times: {min: 1, max? 3}}\n"),
+    ("yaml-two-documents", lambda t: t.rstrip("\n") + "\n---\npattern:\n- ret\n"),
+    ("yaml-unterminated-quote", lambda t: t.rstrip("\n") + "\n- 'ret\n"),
+    ("yaml-bad-escape-in-double-quotes", lambda t: t.rstrip("\n") + '\n- "re\\qt"\n'),
+    ("yaml-control-character", lambda t: t.replace("pattern:", "pattern:\x01", 1)),
+    ("yaml-undefined-alias", lambda t: t.rstrip("\n") + "\n- *nowhere\n"),
+    ("yaml-duplicate-anchor-misuse", lambda t: t.rstrip("\n") + "\n- &a [&a x, *a\n"),
+    ("yaml-tab-indentation-nested", lambda t: t.rstrip("\n") + "\n- zz:\n\t- '%rax'\n"),
+    ("yaml-bad-directive", lambda t: "%YAML 9.9 bogus\n---\n" + t),
 ]
 
 
@@ -342,7 +358,8 @@ def all_jobs(ws, B):
                 jobs.append((name, bi, "file", None))
         else:
             for name in ("objdump-absent", "objdump-exit-1", "objdump-killed", "objdump-garbage-exit-2", "subprocess-run-OSError",
-                         "input-not-an-object"):
+                         "input-not-an-object", "objdump-partial-output-then-killed", "objdump-partial-output-then-exit-1",
+                         "objdump-partial-output-then-sigterm"):
                 jobs.append((name, bi, "file", None))
         if b["macros"]:
             for name in ("macro-file-missing", "macro-file-is-directory", "macro-file-garbled", "open-failpoint-macro-EACCES"):
@@ -395,9 +412,15 @@ def run_job(ctx, ws, B, job, with_cli):
             os.makedirs(d, exist_ok=True)
             envfn = lambda env: env.path(d)  # noqa: E731
             env_path = d
-        elif fault in ("objdump-exit-1", "objdump-killed", "objdump-garbage-exit-2"):
+        elif fault in ("objdump-exit-1", "objdump-killed", "objdump-garbage-exit-2", "objdump-partial-output-then-killed",
+                       "objdump-partial-output-then-exit-1", "objdump-partial-output-then-sigterm"):
+            half = ("printf '\\nobj.bin:     file format elf64-x86-64\\n\\n\\nDisassembly of section .text:\\n\\n0000000000401000 <main>:\\n"
+                    "  401000:\\t48 89 c3             \\tmov    %%rax,%%rbx\\n  401003:\\t53                   \\tpush   %%rbx\\n'\n")
             script = {"objdump-exit-1": "#!/bin/sh\necho 'objdump: file format not recognized' >&2\nexit 1\n",
                       "objdump-killed": "#!/bin/sh\nkill -9 $$\n",
+                      "objdump-partial-output-then-killed": "#!/bin/sh\n" + half + "kill -9 $$\n",
+                      "objdump-partial-output-then-sigterm": "#!/bin/sh\n" + half + "kill -TERM $$\nsleep 1\n",
+                      "objdump-partial-output-then-exit-1": "#!/bin/sh\n" + half + "echo 'objdump: error: section truncated' >&2\nexit 1\n",
                       "objdump-garbage-exit-2": "#!/bin/sh\necho '  401000:\t53 \tpush %rbx'\nexit 2\n"}[fault]
             d = fake_objdump(ws, fault, script)
             envfn = lambda env: env.path(d + os.pathsep + "/usr/bin:/bin")  # noqa: E731
